@@ -67,6 +67,7 @@ def run_level(ctx, binp, q):
     ctx.mc("LifecycleRun.tla", "MC_LifecycleRun.cfg")
     ctx.mc("LifecycleRun.tla", "MC_LifecycleRun_LateReg.cfg", expect_ok=False)
     recs, _, _, _ = ctx.gen("LifecycleRun.tla", "GEN_LifecycleRun.cfg")
+    proc_level(ctx, recs)
     recs = [r for r in recs if "stacking" in r]
     seen, cases = set(), []
     for r in recs:
@@ -94,6 +95,119 @@ def run_level(ctx, binp, q):
         else:
             ctx.traces_ok += 1
     ctx.sample({"run_level": out[len(out) // 2] if out else None})
+
+
+def proc_level(ctx, recs):
+    """the same through the real binary: the shutdown is requested by a signal (LifecycleRun.tla ProcCases)"""
+    import signal, socket, subprocess, threading, time
+    import c19
+    cases = [r for r in recs if "proc" in r]
+    if not cases:
+        raise vlib.Infra("LifecycleRun generated no process-level case")
+    fwd = ctx.build_cmd_forwarder()
+    for r in cases:
+        c, exp = r["proc"], r["exp"]
+        origin = c19.Peer()
+        origin.start()
+        addr, api = c19.free_port(), c19.free_port()
+        p = subprocess.Popen([fwd, "run", "--address", "127.0.0.1:%d" % addr, "--api-address", "127.0.0.1:%d" % api, "--proxy-localhost", "allow",
+                              "--log-level", "error"], stdout=subprocess.DEVNULL, stderr=subprocess.DEVNULL)
+        res = {"case": c, "ok": True}
+
+        def fail(why):
+            if res["ok"]:
+                res["ok"], res["why"] = False, why
+        socks, got = [], {}
+        try:
+            for _ in range(300):
+                try:
+                    socket.create_connection(("127.0.0.1", addr), timeout=0.2).close()
+                    break
+                except OSError:
+                    time.sleep(0.05)
+            tgt = "127.0.0.1:%d" % origin.port
+            t = None
+            if "idle" in c["clients"]:
+                s = socket.create_connection(("127.0.0.1", addr), timeout=5)
+                s.sendall(("GET http://%s/first HTTP/1.1\r\nHost: %s\r\n\r\n" % (tgt, tgt)).encode())
+                s.settimeout(5)
+                buf = b""
+                while b"\r\n\r\nok" not in buf:
+                    d = s.recv(4096)
+                    if not d:
+                        break
+                    buf += d
+                socks.append(("idle", s))
+            if "inflight" in c["clients"]:
+                s = socket.create_connection(("127.0.0.1", addr), timeout=5)
+                s.sendall(("GET http://%s/slow HTTP/1.1\r\nHost: %s\r\n\r\n" % (tgt, tgt)).encode())
+
+                def reader(s=s):
+                    s.settimeout(8)
+                    buf = b""
+                    try:
+                        while True:
+                            d = s.recv(4096)
+                            if not d:
+                                break
+                            buf += d
+                    except OSError:
+                        pass
+                    got["inflight"] = buf
+                t = threading.Thread(target=reader, daemon=True)
+                t.start()
+                socks.append(("inflight", s))
+            time.sleep(0.2)           # the slow request is with the origin now
+            t0 = time.time()
+            p.send_signal(signal.SIGTERM if c["sig"] == "TERM" else signal.SIGINT)
+            if c["second"]:
+                time.sleep(1.2)       # the in-flight exchange is over, the idle client keeps the graceful phase waiting
+                if p.poll() is not None:
+                    fail("the process ended %.1f s after the signal although an idle client kept its connection (graceful phase skipped?)" % (time.time() - t0))
+                p.send_signal(signal.SIGTERM if c["sig"] == "TERM" else signal.SIGINT)
+            try:
+                rc = p.wait(timeout=8)
+            except subprocess.TimeoutExpired:
+                rc = None
+                fail("the process had not ended 8 s after the %s signal" % ("second" if c["second"] else ""))
+            took = time.time() - t0
+            res["exit"], res["took_s"] = rc, round(took, 2)
+            if rc is not None and rc != exp["exit"]:
+                fail("exit status %s after a requested shutdown" % rc)
+            if t is not None:
+                t.join(timeout=9)
+                body = got.get("inflight", b"")
+                res["inflight_bytes"] = len(body)
+                if exp["inflightAnswered"] and not (body.startswith(b"HTTP/1.1 200") and body.endswith(b"ok")):
+                    fail("the exchange in flight when the signal came was not completed: %r" % body[:80])
+            for name, s in socks:
+                if name == "idle":
+                    s.settimeout(2)
+                    try:
+                        if s.recv(16) != b"":
+                            fail("unexpected bytes on the idle connection")
+                    except socket.timeout:
+                        fail("the idle client's connection is still open after the process ended")
+                    except OSError:
+                        pass
+            for port, what in ((addr, "proxy"), (api, "API")):
+                try:
+                    socket.create_connection(("127.0.0.1", port), timeout=0.5).close()
+                    fail("something still listens on the %s port after the process ended" % what)
+                except OSError:
+                    pass
+        finally:
+            if p.poll() is None:
+                p.kill()
+            for _, s in socks:
+                s.close()
+            origin.close()
+        ctx.evaluations += 1
+        ctx.nontrivial.add("proc:%s:%s:%s" % ("+".join(sorted(c["clients"])), c["sig"], c["second"]))
+        if not res["ok"]:
+            ctx.violation("C11:process:%s" % ("inflight-not-completed" if "in flight" in res["why"] else "exit" if "exit status" in res["why"] or "not ended" in res["why"] else "left-open"), res)
+        else:
+            ctx.traces_ok += 1
 
 
 def replay(ctx, path):
